@@ -33,12 +33,16 @@ impl<'a> Plugin for TableAccess<'a> {
         let mut found = None;
 
         visit_relations(ast, |relation| {
-            let relation = relation.to_string();
-            let parts = relation.split('.').collect::<Vec<&str>>();
-            let table_name = parts.last().unwrap();
+            // Postgres folds unquoted identifiers to lower case and takes quoted ones verbatim:
+            // SECRET, Secret and "secret" all name the table `secret`.
+            let table_name = match relation.0.last() {
+                Some(ident) if ident.quote_style.is_some() => ident.value.clone(),
+                Some(ident) => ident.value.to_lowercase(),
+                None => return ControlFlow::<()>::Continue(()),
+            };
 
-            if self.tables.contains(&table_name.to_string()) {
-                found = Some(table_name.to_string());
+            if self.tables.contains(&table_name) {
+                found = Some(table_name);
                 ControlFlow::<()>::Break(())
             } else {
                 ControlFlow::<()>::Continue(())
